@@ -44,7 +44,7 @@ Inductive gtype : Type :=
    distinguishes them).  An interface holds one of the dynamic values the decoder itself produces
    (C01.aval: int8/16/32/64, float32/64, string, []byte, []int32, []int64, []any, map[string]any).
    A RawMessage or dynbt Value pointer is represented by the tree whose encoding it holds (None: the zero
-   RawMessage / a nil Value pointer); dynbt does not keep the element id of an empty list (dyn_norm). *)
+   RawMessage / a nil Value pointer). *)
 Inductive gv : Type :=
 | GvBool (b : bool)
 | GvInt (z : Z)
@@ -107,15 +107,6 @@ Fixpoint zero (t : gtype) : gv :=
   | YIface => GvIface None
   | YRaw => GvRaw None
   | YDyn => GvDyn None
-  end.
-
-(* what dynbt keeps of a tree: everything but the element id of a list, which MarshalNBT takes from the
-   first element (TagEnd when the list is empty) *)
-Fixpoint dyn_norm (t : tag) : tag :=
-  match t with
-  | TList eid l => TList (match l with [] => idEnd | _ => eid end) (map dyn_norm l)
-  | TCompound l => TCompound (map (fun kv => (fst kv, dyn_norm (snd kv))) l)
-  | _ => t
   end.
 
 (* ------------------------------------------------------------------------------------------ *)
@@ -377,14 +368,15 @@ Fixpoint enc (t : gtype) (v : gv) {struct t} : tres :=
       end
   | YIface => match v with GvIface (Some a) => any_tree a | GvIface None => TErr | _ => TPanic end
   | YRaw => match v with GvRaw (Some tr) => TOk tr | GvRaw None => TErr | _ => TPanic end
-  | YDyn => match v with GvDyn (Some tr) => TOk (dyn_norm tr) | GvDyn None => TErr | _ => TPanic end
+  | YDyn => match v with GvDyn (Some tr) => TOk tr | GvDyn None => TErr | _ => TPanic end
   end.
 
 (* Encoder.Encode(v, name): `byval` says whether v itself or &v is handed to Marshal.  A nil interface
-   handed over by value is the untyped nil: reflect.Value.Type panics on the zero Value. *)
+   handed over by value is the untyped nil: refused with an error since fix 201ce44 (a pointer to a nil
+   interface has no tag: error as well). *)
 Definition marshal (f : fmt) (byval : bool) (name : list N) (t : gtype) (v : gv) : mres :=
   match t, v with
-  | YIface, GvIface None => if byval then MPanic else MErr
+  | YIface, GvIface None => MErr
   | _, _ =>
       if (match f with File => name_too_long name | Net => false end) then MErr
       else match enc t v with
@@ -397,9 +389,10 @@ Definition marshal (f : fmt) (byval : bool) (name : list N) (t : gtype) (v : gv)
 (* ------------------------------------------------------------------------------------------ *)
 (* Part 3: the decoder                                                                         *)
 
-(* the reads Decoder.unmarshal performs for a value of tag id (the same reads as dec_any), keeping the
-   tree: element id of a list, entries of a compound in order *)
-Fixpoint dec_tree (fuel : nat) (id : N) : dec tag :=
+(* the reads Decoder.unmarshal performs for a value of tag id (the same reads as C01.dany), keeping the
+   tree: element id of a list, entries of a compound in order.  dep: the lists / compounds that may still be
+   opened (Decoder.enter, since fix e74e260) *)
+Fixpoint dtree (fuel : nat) (dep : N) (id : N) : dec tag :=
   match fuel with
   | O => NoFuel
   | S f =>
@@ -416,11 +409,13 @@ Fixpoint dec_tree (fuel : nat) (id : N) : dec tag :=
         else ReadFull (Z.to_N n) (fun bs => Ret (TByteArray bs))
       else if id =? idString then s <- rd_string ;; Ret (TString s)
       else if id =? idList then
+        if dep =? 0 then Fail eDepth else
         et <- rd_u8 ;; n <- rd_i32 ;;
         if (n <? 0)%Z then Fail eNeg
-        else l <- rep f (Z.to_N n) (dec_tree f et) [] ;; Ret (TList et l)
+        else l <- rep f (Z.to_N n) (dtree f (dep - 1) et) [] ;; Ret (TList et l)
       else if id =? idCompound then
-        m <- comp_loop f rd_tag (dec_tree f) (fun k v m => (k, v) :: m) [] ;; Ret (TCompound (rev_append m []))
+        if dep =? 0 then Fail eDepth else
+        m <- comp_loop f rd_tag (dtree f (dep - 1)) (fun k v m => (k, v) :: m) [] ;; Ret (TCompound (rev_append m []))
       else if id =? idIntArray then
         n <- rd_i32 ;;
         if (n <? 0)%Z then Fail eNeg
@@ -431,6 +426,7 @@ Fixpoint dec_tree (fuel : nat) (id : N) : dec tag :=
         else l <- rep f (Z.to_N n) rd_i64 [] ;; Ret (TLongArray l)
       else Fail eUnknown
   end.
+Definition dec_tree (fuel : nat) (id : N) : dec tag := dtree fuel max_open id.
 
 Inductive ures : Type :=
 | UOk (v : gv)
@@ -561,7 +557,7 @@ Definition via (r : ures) (t : gtype) : ures := ubind r (fun v => UOk (wrap_ptr 
 Fixpoint unm_base (tr : tag) (b : gtype) {struct tr} : ures :=
   match b with
   | YRaw => UOk (GvRaw (Some tr))                     (* Unmarshaler found by indirect *)
-  | YDyn => UOk (GvDyn (Some (dyn_norm tr)))
+  | YDyn => UOk (GvDyn (Some tr))
   | YIface => UOk (GvIface (Some (value_of tr)))      (* every case sets the interface: C01 dec_any *)
   | _ =>
     match tr with
@@ -633,15 +629,69 @@ Definition unmarshal (f : fmt) (t : gtype) (bs : list N) : dres :=
 (* ------------------------------------------------------------------------------------------ *)
 (* Part 4: the carriers re-encoding what they decoded                                          *)
 
-(* dynbt Value.MarshalNBT *)
-Definition dyn_tag (d : dval) : N :=
-  match d with DData id _ => id | DList _ => idList | DComp _ => idCompound end.
-Fixpoint dyn_enc (d : dval) : list N :=
+(* dynbt.Value as of fix 64a91ad: tag + raw big-endian data / element list WITH the element id it was
+   decoded with (kept in data) / ordered entries *)
+Inductive dval2 : Type :=
+| D2Data (id : N) (data : list N)
+| D2List (eid : N) (l : list dval2)
+| D2Comp (l : list (list N * dval2)).
+
+(* dynbt Value.UnmarshalNBT (C01.ddyn plus the element id) *)
+Fixpoint ddyn2 (fuel : nat) (dep : N) (id : N) : dec dval2 :=
+  match fuel with
+  | O => NoFuel
+  | S f =>
+      if id =? idEnd then Ret (D2Data id [])
+      else if id =? idByte then b <- rd_u8 ;; Ret (D2Data id [b])
+      else if id =? idShort then ReadFull 2 (fun bs => Ret (D2Data id bs))
+      else if (id =? idInt) || (id =? idFloat) then ReadFull 4 (fun bs => Ret (D2Data id bs))
+      else if (id =? idLong) || (id =? idDouble) then ReadFull 8 (fun bs => Ret (D2Data id bs))
+      else if id =? idByteArray then
+        ReadFull 4 (fun h => let n := sx32 (unbe h) in
+          if (n <? 0)%Z then Fail eNeg
+          else ReadFull (Z.to_N n) (fun bs => Ret (D2Data id (h ++ bs))))
+      else if id =? idString then
+        ReadFull 2 (fun h => let n := sx16 (unbe h) in
+          if (n <? 0)%Z then Fail eNeg
+          else ReadFull (Z.to_N n) (fun bs => Ret (D2Data id (h ++ bs))))
+      else if id =? idList then
+        if dep =? 0 then Fail eDepth else
+        t <- rd_u8 ;; n <- rd_i32 ;;
+        if (n <? 0)%Z then Fail eNeg
+        else if (t =? idEnd) && (0 <? n)%Z then Fail eEND
+        else l <- rep f (Z.to_N n) (ddyn2 f (dep - 1) t) [] ;; Ret (D2List t l)
+      else if id =? idCompound then
+        if dep =? 0 then Fail eDepth else
+        m <- comp_loop f rd_tag_dyn (ddyn2 f (dep - 1)) (fun k v m => (k, v) :: m) [] ;; Ret (D2Comp (rev_append m []))
+      else if id =? idIntArray then
+        ReadFull 4 (fun h => let n := sx32 (unbe h) in
+          if (n <? 0)%Z then Fail eNeg
+          else ReadFull (4 * Z.to_N n) (fun bs => Ret (D2Data id (h ++ bs))))
+      else if id =? idLongArray then
+        ReadFull 4 (fun h => let n := sx32 (unbe h) in
+          if (n <? 0)%Z then Fail eNeg
+          else ReadFull (8 * Z.to_N n) (fun bs => Ret (D2Data id (h ++ bs))))
+      else Fail eUnknown
+  end.
+Definition dec_dyn2 (fuel : nat) (id : N) : dec dval2 := ddyn2 fuel max_open id.
+
+Fixpoint dyn2_of (t : tag) : dval2 :=
+  match t with
+  | TList eid l => D2List eid (map dyn2_of l)
+  | TCompound l => D2Comp (map (fun kv => (fst kv, dyn2_of (snd kv))) l)
+  | _ => D2Data (tag_id t) (payload t)
+  end.
+
+(* dynbt Value.MarshalNBT: the element id of a list is the tag of its first element, the id kept at
+   decoding time when it is empty *)
+Definition dyn_tag (d : dval2) : N :=
+  match d with D2Data id _ => id | D2List _ _ => idList | D2Comp _ => idCompound end.
+Fixpoint dyn_enc (d : dval2) : list N :=
   match d with
-  | DData id data => if id =? idEnd then [0] else data
-  | DList l =>
-      (match l with [] => idEnd | x :: _ => dyn_tag x end) :: be 4 (u32 (Z.of_N (lenN l))) ++ flat_map dyn_enc l
-  | DComp l =>
+  | D2Data id data => if id =? idEnd then [0] else data
+  | D2List eid l =>
+      (match l with [] => eid | x :: _ => dyn_tag x end) :: be 4 (u32 (Z.of_N (lenN l))) ++ flat_map dyn_enc l
+  | D2Comp l =>
       flat_map (fun kv => dyn_tag (snd kv) :: be 2 (u16 (Z.of_N (lenN (fst kv)))) ++ fst kv ++ dyn_enc (snd kv)) l
       ++ [idEnd]
   end.
@@ -649,15 +699,7 @@ Fixpoint dyn_enc (d : dval) : list N :=
 Definition hdr (f : fmt) (id : N) (name : list N) : list N :=
   match f with File => id :: be 2 (lenN name) ++ name | Net => [id] end.
 Definition raw_reencode (f : fmt) (name : list N) (r : N * list N) : list N := hdr f (fst r) name ++ snd r.
-Definition dyn_reencode (f : fmt) (name : list N) (d : dval) : list N := hdr f (dyn_tag d) name ++ dyn_enc d.
-
-(* a tree dynbt reproduces exactly: no empty list carrying an element id other than TagEnd *)
-Fixpoint dyn_exact (t : tag) : bool :=
-  match t with
-  | TList eid l => (match l with [] => eid =? idEnd | _ => true end) && forallb dyn_exact l
-  | TCompound l => forallb (fun kv => dyn_exact (snd kv)) l
-  | _ => true
-  end.
+Definition dyn_reencode (f : fmt) (name : list N) (d : dval2) : list N := hdr f (dyn_tag d) name ++ dyn_enc d.
 
 (* ------------------------------------------------------------------------------------------ *)
 (* Part 5: specification                                                                       *)
@@ -756,7 +798,6 @@ Fixpoint documented (t : gtype) : bool :=
    - a field with omitempty that holds an empty value is not written and comes back as the zero value
      (-0.0 counts as empty: it comes back as +0.0);
    - a field left out of the table ("-", unexported) comes back as the zero value;
-   - a dynbt Value does not keep the element id of an empty list;
    everything else comes back identical (floats by bits, integers by value). *)
 Definition canon_fields (cf : gtype -> gv -> gv) : list (finfo * gtype) -> list gv -> list gv :=
   fix go (fs : list (finfo * gtype)) (vs : list gv) : list gv :=
@@ -776,7 +817,6 @@ Fixpoint canon (t : gtype) (v : gv) {struct t} : gv :=
       GvStruct (canon_fields (fun t x => canon t x) fs vs)
   | YPtr e, GvPtr (Some x) => GvPtr (Some (canon e x))
   | YPtr e, GvPtr None => GvPtr (Some (canon e (zero e)))
-  | YDyn, GvDyn (Some tr) => GvDyn (Some (dyn_norm tr))
   | _, _ => v
   end.
 (* map entries are compared as sets of (key, value) *)
